@@ -4,7 +4,7 @@
     switches) at which the two gates differ.  One-to-one with the open C17
     entries of /verif/known_findings.json (key "word=<spelling>"). *)
 From Coq Require Import List NArith String Bool Arith.
-From PV Require Import KwDefs KwSpec.
+From PV Require Import KwDefs KwProofs KwModel KwSpec.
 From PV.gen Require Import Gen_SyntaxKind Gen_Keywords.
 Import ListNotations.
 Local Open Scope string_scope.
@@ -38,16 +38,26 @@ Fixpoint find_finding (w : word) (l : list finding) : option finding :=
   | f :: l' => if word_eqb (W (f_word f)) w then Some f else find_finding w l'
   end.
 
+Definition witness_opts (f : finding) : opts :=
+  (f_std f, fun k => existsb (Nat.eqb k) (f_on f)).
+
+(** A finding is *active* when the regenerated trie still disagrees with the
+    oracle on the finding's word at its witness valuation; a finding that has
+    been repaired in the source drops out and the oracle's row is proved. *)
+Definition finding_active (f : finding) : bool :=
+  match KwModel.dispatch K_IdentifierToken recognize_table (witness_opts f) (W (f_word f)) with
+  | Some k => negb (N.eqb k (spec K_IdentifierToken kw_oracle (witness_opts f) (W (f_word f))))
+  | None => true
+  end.
+Definition kw_active : list finding := filter finding_active kw_findings.
+
 (** The table the implementation is proved against: the oracle, with the gate
-    replaced at exactly the listed words. *)
+    replaced at exactly the listed (and still active) words. *)
 Definition kw_effective : list row :=
-  map (fun r => match find_finding (r_word r) kw_findings with
+  map (fun r => match find_finding (r_word r) kw_active with
                 | Some f => {| r_word := r_word r; r_kind := r_kind r; r_gate := f_impl_gate f |}
                 | None => r
                 end) kw_oracle.
-
-Definition witness_opts (f : finding) : opts :=
-  (f_std f, fun k => existsb (Nat.eqb k) (f_on f)).
 
 Fixpoint oracle_gate (w : word) (l : list row) : option gate :=
   match l with
